@@ -618,6 +618,16 @@ func TestCheck(t *testing.T) {
 			{Kind: "damage", Damage: scen.Damage{Op: "truncate", File: 0, Off: 4*nz - 6}}, {Kind: "repair"}, {Kind: "verify"}, {Kind: "repair"}}
 		do(c)
 	}
+	// a file whose second half is all zero (64 KiB and more of zeros at the end) is lost, restored, verified, repaired again
+	for k, f := range []string{"par2", "par1"} {
+		if !cfg.Mine(81 + k) {
+			continue
+		}
+		rec.Class("history-with-zero-tail-file")
+		c := Case{Format: f, Slice: 65536, N: 3, Files: []scen.FileSpec{{Name: "img.bin", Size: 131072 + 65536*k, Kind: "halfzero", Seed: 11}, {Name: "a.dat", Size: 10, Kind: "random", Seed: 2}}}
+		c.Actions = []Action{{Kind: "damage", Damage: scen.Damage{Op: "delete", File: 0}}, {Kind: "verify"}, {Kind: "repair"}, {Kind: "verify"}, {Kind: "repair", DC: true}, {Kind: "verify"}}
+		do(c)
+	}
 	cfg.SetRapid(cfg.N(600, 5000), 1)
 	rapid.Check(t, func(rt *rapid.T) {
 		if !do(genCase(rt, cfg.N(25, 40))) {
